@@ -15,9 +15,7 @@
 package bufanalysis
 
 import (
-	"crypto/sha256"
 	"sort"
-	"strconv"
 	"strings"
 )
 
@@ -61,9 +59,9 @@ func (*fileAnnotationSet) isFileAnnotationSet() {}
 // This function makes a copy of the input FileAnnotations.
 func deduplicateAndSortFileAnnotations(fileAnnotations []FileAnnotation) []FileAnnotation {
 	deduplicated := make([]FileAnnotation, 0, len(fileAnnotations))
-	seen := make(map[string]struct{}, len(fileAnnotations))
+	seen := make(map[fileAnnotationKey]struct{}, len(fileAnnotations))
 	for _, fileAnnotation := range fileAnnotations {
-		key := hash(fileAnnotation)
+		key := newFileAnnotationKey(fileAnnotation)
 		if _, ok := seen[key]; ok {
 			continue
 		}
@@ -164,19 +162,35 @@ func fileAnnotationCompareTo(a FileAnnotation, b FileAnnotation) int {
 	return 0
 }
 
-// hash returns a hash value that uniquely identifies the given FileAnnotation.
-func hash(fileAnnotation FileAnnotation) string {
+// fileAnnotationKey identifies a FileAnnotation for the purposes of deduplication.
+//
+// This is a comparable struct as opposed to a hash of the concatenated fields: without
+// separators, different annotations concatenate to the same text (for example 2:13-2:16
+// and 21:3-21:6 in the same file with the same type and message), and one of them would
+// be dropped.
+type fileAnnotationKey struct {
+	externalPath string
+	startLine    int
+	startColumn  int
+	endLine      int
+	endColumn    int
+	typ          string
+	message      string
+}
+
+// newFileAnnotationKey returns the key that uniquely identifies the given FileAnnotation.
+func newFileAnnotationKey(fileAnnotation FileAnnotation) fileAnnotationKey {
 	path := ""
 	if fileInfo := fileAnnotation.FileInfo(); fileInfo != nil {
 		path = fileInfo.ExternalPath()
 	}
-	hash := sha256.New()
-	_, _ = hash.Write([]byte(path))
-	_, _ = hash.Write([]byte(strconv.Itoa(fileAnnotation.StartLine())))
-	_, _ = hash.Write([]byte(strconv.Itoa(fileAnnotation.StartColumn())))
-	_, _ = hash.Write([]byte(strconv.Itoa(fileAnnotation.EndLine())))
-	_, _ = hash.Write([]byte(strconv.Itoa(fileAnnotation.EndColumn())))
-	_, _ = hash.Write([]byte(fileAnnotation.Type()))
-	_, _ = hash.Write([]byte(fileAnnotation.Message()))
-	return string(hash.Sum(nil))
+	return fileAnnotationKey{
+		externalPath: path,
+		startLine:    fileAnnotation.StartLine(),
+		startColumn:  fileAnnotation.StartColumn(),
+		endLine:      fileAnnotation.EndLine(),
+		endColumn:    fileAnnotation.EndColumn(),
+		typ:          fileAnnotation.Type(),
+		message:      fileAnnotation.Message(),
+	}
 }
